@@ -192,11 +192,13 @@ def gen_case(run_seed: int, index: int, tier: str) -> dict:
             case["ops"].append(["forward", _gen_call(rng)])
     elif kind in ("sequential", "configurable"):
         n = rng.randrange(0, 7)
-        case["stages"] = [f"s{i}" for i in range(n)]
+        # a stage object may sit at several positions of one pipeline (the same name = the same object)
+        reuse = rng.random() < 0.35
+        case["stages"] = [f"s{rng.randrange(3)}" if reuse else f"s{i}" for i in range(n)]
         extra = n
         for _ in range(rng.choice([0, 1, 2, 4, 8])):
             if rng.random() < 0.55:
-                case["ops"].append(["add", f"s{extra}"])
+                case["ops"].append(["add", f"s{rng.randrange(3)}" if reuse else f"s{extra}"])
                 extra += 1
             else:
                 case["ops"].append(["remove", rng.randrange(0, 7)])
@@ -308,14 +310,23 @@ def run_sequential_family(ctx: Ctx):
     case = ctx.case
     kind = case["kind"]
     tr = ctx.trace
+    objs = {}
+
+    def stage(name):
+        if name not in objs:
+            objs[name] = RecModel(name, tr)
+        else:
+            ctx.res.probes["sequential.stage_object_reused"] += 1
+        return objs[name]
+
     if kind == "sequential":
         names = list(case["stages"])
-        model = SequentialModel([RecModel(n, tr) for n in names]) if names else SequentialModel()
+        model = SequentialModel([stage(n) for n in names]) if names else SequentialModel()
     elif kind == "configurable":
         names = []
         model = ConfigurableModel()
         for n in case["stages"]:
-            model.add_step(RecModel(n, tr))
+            model.add_step(stage(n))
             names.append(n)
     elif kind == "deepjscc":
         names = ["encoder", "constraint", "channel", "decoder"]
@@ -329,7 +340,7 @@ def run_sequential_family(ctx: Ctx):
     hist_before_forward = False
     for op in case["ops"]:
         if op[0] == "add":
-            model.add_step(RecModel(op[1], tr))
+            model.add_step(stage(op[1]))
             names.append(op[1])
             hist_before_forward = True
             ctx.log.add("op.add", op[1])
